@@ -37,7 +37,11 @@ Settled(c) == CASE c = "ok" /\ ~reach -> "err"
 \* "wait": at least two rounds of the liveness loop
 Wait == /\ hist # <<>> /\ hist[Len(hist)].op # "wait"
         /\ cache' = Settled(Settled(cache)) /\ UNCHANGED <<reach, alive>> /\ hist' = Append(hist, O("wait"))
-Next == Len(hist) < MaxOps /\ (Up \/ Down \/ Heartbeat \/ Lapse \/ Get \/ Wait)
+\* engines of OTHER endpoints enter and leave the cache, one being removed at the moment the next is added: nothing about this
+\* endpoint's entry changes (the cache is shared by every caller and by the two background loops)
+Churn == /\ (IF hist = <<>> THEN TRUE ELSE hist[Len(hist)].op # "churn") /\ \A i \in 1..Len(hist) : hist[i].op # "churn"
+         /\ UNCHANGED <<reach, alive, cache>> /\ hist' = Append(hist, O("churn"))
+Next == Len(hist) < MaxOps /\ (Up \/ Down \/ Heartbeat \/ Lapse \/ Get \/ Wait \/ Churn)
 Spec == Init /\ [][Next]_vars
 \* after a wait the cache tells the truth
 TruthAfterWait == (hist # <<>> /\ hist[Len(hist)].op = "wait") => /\ (cache = "ok" => reach) /\ (cache = "err" => ~reach)
